@@ -11,6 +11,30 @@ let rec int_of_pos = function E.XH -> 1 | E.XO p -> 2 * int_of_pos p | E.XI p ->
 let int_of_n = function E.N0 -> 0 | E.Npos p -> int_of_pos p
 let int_of_z = function E.Z0 -> 0 | E.Zpos p -> int_of_pos p | E.Zneg p -> - (int_of_pos p)
 
+(* arbitrary-size decimal <-> Z through the extracted arithmetic *)
+let z_of_string (t : string) : E.z =
+  let neg = String.length t > 0 && t.[0] = '-' in
+  let start = if neg || (String.length t > 0 && t.[0] = '+') then 1 else 0 in
+  let ten = z_of_int 10 in
+  let acc = ref E.Z0 in
+  for i = start to String.length t - 1 do
+    acc := E.Z.add (E.Z.mul !acc ten) (z_of_int (Char.code t.[i] - 48))
+  done;
+  if neg then E.Z.opp !acc else !acc
+
+let string_of_z (z : E.z) : string =
+  let small z = match z with E.Z0 -> Some 0 | E.Zpos p -> (try Some (int_of_pos p) with _ -> None) | E.Zneg _ -> None in
+  let ten = z_of_int 10 in
+  let rec digits z acc =
+    match z with
+    | E.Z0 -> acc
+    | _ -> let d = (match small (E.Z.modulo z ten) with Some d -> d | None -> 0) in
+      digits (E.Z.div z ten) (String.make 1 (Char.chr (48 + d)) ^ acc) in
+  match z with
+  | E.Z0 -> "0"
+  | E.Zpos _ -> digits z ""
+  | E.Zneg p -> "-" ^ digits (E.Zpos p) ""
+
 let hexval c = match c with
   | '0'..'9' -> Char.code c - 48 | 'a'..'f' -> Char.code c - 87 | 'A'..'F' -> Char.code c - 55
   | _ -> failwith "bad hex"
@@ -31,7 +55,7 @@ let parse (line : string) : E.sx =
     | t :: rest ->
       let v = match t.[0] with
         | 's' -> E.A (str_of_hex (String.sub t 1 (String.length t - 1)))
-        | 'i' -> E.I (z_of_int (int_of_string (String.sub t 1 (String.length t - 1))))
+        | 'i' -> E.I (z_of_string (String.sub t 1 (String.length t - 1)))
         | _ -> failwith ("bad token " ^ t) in
       items rest (v :: acc) in
   match items toks [] with
@@ -41,7 +65,7 @@ let parse (line : string) : E.sx =
 let buf = Buffer.create 65536
 let rec print (x : E.sx) = match x with
   | E.A s -> Buffer.add_char buf 's'; List.iter (fun c -> Buffer.add_string buf (Printf.sprintf "%02x" (int_of_n c))) s
-  | E.I z -> Buffer.add_char buf 'i'; Buffer.add_string buf (string_of_int (int_of_z z))
+  | E.I z -> Buffer.add_char buf 'i'; Buffer.add_string buf (string_of_z z)
   | E.L l -> Buffer.add_char buf '(';
     List.iter (fun y -> Buffer.add_char buf ' '; print y) l; Buffer.add_string buf " )"
 
